@@ -1663,6 +1663,11 @@ static void canned(const std::string &name, const Node &nd, bool interp, std::ve
         lv2.s = 17;
         lv2.u = 8;
         v.push_back(lv2);
+        // a medium-altitude path (an extra turn before the planar path) in Owen's and in Vana-Owen's construction
+        Probe md{"canned-medium", fixed(st(-1, 2.5, -6, 0, 0), st(2, -1.5, -1, 0, 0), st(0, 0, 0, 0, 0)), true};
+        md.s = 8;
+        md.u = 48;
+        v.push_back(md);
         // straight above, heading across the seam: no Vana-Owen path is found
         Probe np{"canned-nopath", fixed(st(3, 3, 3, -0.26179938779914941, -3.1415926535897931),
                                         st(3, 3, 4.5, -0.52359877559829882, 3.141592653588793), st(0, 0, 0, 0, 0)), true};
